@@ -5,7 +5,11 @@ package main
 
 import (
 	"runtime"
+	"sort"
+	"strings"
 	"sync"
+
+	"github.com/mutagen-io/mutagen/pkg/synchronization/core"
 
 	"verif/internal/vk"
 )
@@ -56,6 +60,60 @@ func bucket(n int) string {
 	default:
 		return "8+"
 	}
+}
+
+// describeEntry renders an entry tree with kinds only (no digests: output
+// must stay plain text) and bounded size.
+func describeEntry(e *core.Entry) string {
+	var sb strings.Builder
+	var rec func(e *core.Entry, depth int)
+	rec = func(e *core.Entry, depth int) {
+		if e == nil {
+			sb.WriteString("-")
+			return
+		}
+		switch e.Kind {
+		case core.EntryKind_Directory, core.EntryKind_PhantomDirectory:
+			if e.Kind == core.EntryKind_PhantomDirectory {
+				sb.WriteString("H")
+			} else {
+				sb.WriteString("D")
+			}
+			if len(e.Contents) == 0 {
+				return
+			}
+			sb.WriteString("{")
+			if depth >= 4 || sb.Len() > 600 {
+				sb.WriteString("...}")
+				return
+			}
+			names := make([]string, 0, len(e.Contents))
+			for n := range e.Contents {
+				names = append(names, n)
+			}
+			sort.Strings(names)
+			for i, n := range names {
+				if i > 0 {
+					sb.WriteString(" ")
+				}
+				sb.WriteString(n + ":")
+				rec(e.Contents[n], depth+1)
+			}
+			sb.WriteString("}")
+		case core.EntryKind_File:
+			sb.WriteString("F")
+		case core.EntryKind_SymbolicLink:
+			sb.WriteString("L")
+		case core.EntryKind_Untracked:
+			sb.WriteString("U")
+		case core.EntryKind_Problematic:
+			sb.WriteString("P")
+		default:
+			sb.WriteString("?")
+		}
+	}
+	rec(e, 0)
+	return sb.String()
 }
 
 var _ = (*vk.Run)(nil)
